@@ -14,7 +14,7 @@ import traceback
 import zlib
 
 from simcan import prims
-from simcan.core import Ctx, Tape, Violation, HarnessError, Hang, StepCap
+from simcan.core import Ctx, Tape, Violation, HarnessError, Hang, StepCap, AllParked
 
 VERIF = os.path.dirname(os.path.dirname(os.path.abspath(__file__)))
 EVIDENCE_DIR = os.environ.get("VERIF_EVIDENCE_DIR") or os.path.join(VERIF, "evidence")
@@ -102,6 +102,14 @@ def run_one(prop, prefix=(), seed=0, replay=None, trace=False, params=None):
             ctx.log("VIOLATION", key)
             return Outcome("violation", key, "the run exceeded %d simulator steps (ordinary runs need a few thousand): the code under test keeps polling / "
                            "retrying without end. Last events: %s" % (ctx.max_steps, (ctx.trace or [])[-6:]), tape.values, ctx.digest(), ctx)
+        except AllParked:
+            watch.stop()
+            key = "%s/hang/all-threads-parked" % prop.ID
+            ctx.log("VIOLATION", key)
+            return Outcome("violation", key, "every task thread and the scheduler were parked without a single step for 20 s of wall time: the baton "
+                           "of the cooperative scheduler is lost. On an unchanged tree this has never been seen; it happens when the code under "
+                           "test keeps a lock or condition object alive from one run to the next (class attribute, module global). Last events: %s"
+                           % ((ctx.trace or [])[-5:],), tape.values, ctx.digest(), ctx)
         except NoProgress:
             watch.stop()
             key = "%s/hang/no-simulator-primitive-reached-for-%ds" % (prop.ID, int(HANG_S))
